@@ -10,6 +10,13 @@ R04.4 join scratch state (alias map, consumed aliases) is re-initialised between
       and handlers rebind transpiler attributes only inside restoring context managers (RT.3b)
 R04.5 nvl defaults of the join are applied in every branch that emits a non-key component
 R04.6 explicit `using` replaces the pairwise common identifiers for every further operand
+R04.7 join model: Operators.Join.*.validate and SQLTranspiler.visit_JoinOp are evaluated by abstract interpretation (sa/e6.py) on
+      small operand structures (2-3 datasets; identifier sets equal / nested in both orders; a shared measure; using on an
+      identifier and on a measure-that-is-an-identifier-elsewhere) for the four operators.  Whenever semantic analysis accepts
+      the join: the SELECT list delivers exactly the components of the semantic result; each further operand is joined with the
+      operator's own join type, ON exactly the identifiers it shares with ANY operand joined before it (or using ∩ its
+      components); the left side of each equality names an operand that is already joined and has the key - for left_join the
+      earliest such operand (later ones are NULL where unmatched), for full_join the COALESCE of all of them
 Not decided: that DuckDB's join on the emitted ON clause yields the VTL result; alias disambiguation of every component.
 """
 from __future__ import annotations
@@ -36,7 +43,8 @@ def run(rep: Report, tier: str) -> None:  # noqa: C901
     rep.rule("R04.3", "FULL JOIN keys of the joined side are coalesced in SELECT and in ON")
     rep.rule("R04.4", "join scratch state reset between statements; attribute rebinding only in restoring scopes")
     rep.rule("R04.5", "nvl defaults applied in every branch that emits a non-key component")
-    rep.rule("R04.6", "explicit using replaces the pairwise keys")
+    rep.rule("R04.6", "explicit using replaces the pairwise keys (join model: ON keys of every further operand == using ∩ its components)")
+    rep.rule("R04.7", "join model: SELECT list == components of the semantic result; ON keys == identifiers shared with the operands joined before; ON references an operand already joined that has the key")
     transp.field_coverage(P, rep, "R04.1", ["JoinOp", "NvlJoinPair"], EXEMPT, "join")
 
     # ---- R04.2 ----
@@ -154,14 +162,125 @@ def run(rep: Report, tier: str) -> None:  # noqa: C901
                                        f"`nvl(Me_1, 0)` in the join has no effect for components emitted here"))
     rep.floor("R04.5 projection branches", n_br, 2)
 
-    # ---- R04.6 ----
-    rep.instance("R04.6", "using-replaces-pairwise")
-    ok = False
-    for n in walk_no_nested(vj.node):
-        if isinstance(n, ast.If) and src(n.test) in ("explicit_using is not None", "explicit_using"):
-            body = " ".join(src(x) for x in n.body)
-            ok = "pairwise_keys" in body and "explicit_using" in body
-    eu = [n for n in walk_no_nested(vj.node) if isinstance(n, ast.Assign) and any(isinstance(t, ast.Name) and t.id == "explicit_using" for t in n.targets)]
-    if not ok or not eu or "node.using" not in src(eu[0].value):
-        rep.add(transp.fnd("R04.6", "using-replaces-pairwise", vj, vj.node.lineno, "an explicit `using` list does not become the join keys of every further operand"))
+    # ---- R04.6 / R04.7: Join.validate and visit_JoinOp evaluated (E6) on abstract operand structures ----
+    _join_model(P, rep, vj)
     rep.assumptions = ["DuckDB join semantics for the emitted ON clause", "SQLBuilder.join writes `<keyword> JOIN` from its join_type argument (read from the source)"]
+
+
+JOIN_SHAPES: List[Tuple[str, List[List[str]], Optional[List[str]], Dict[int, List[str]]]] = [
+    # label, identifier sets per operand, using, extra measures per operand index (a using key that is a measure there)
+    ("eq3", [["A", "B"], ["A", "B"], ["A", "B"]], None, {}),
+    ("small-first", [["A"], ["A", "B"], ["A", "B"]], None, {}),
+    ("big-first", [["A", "B"], ["A"], ["B"]], None, {}),
+    ("big-first-2", [["A", "B"], ["A", "B"], ["A"]], None, {}),
+    ("small-small-big", [["A"], ["A"], ["A", "B"]], None, {}),
+    ("2/big-small", [["A", "B"], ["A"]], None, {}),
+    ("2/small-big", [["A"], ["A", "B"]], None, {}),
+    ("2/eq", [["A"], ["A"]], None, {}),
+    ("using-id/2", [["A", "B"], ["A"]], ["A"], {}),
+    ("using-id/3", [["A", "B"], ["A"], ["A"]], ["A"], {}),
+    ("using-measure-key/2", [["A"], ["K"]], ["K"], {0: ["K"]}),
+    ("using-two/3", [["A", "B", "C"], ["A", "B"], ["A", "B"]], ["A", "B"], {}),
+]
+JOIN_OPS = [("InnerJoin", "inner_join"), ("LeftJoin", "left_join"), ("FullJoin", "full_join"), ("CrossJoin", "cross_join")]
+
+
+def _join_model(P: Program, rep: Report, vj: FuncInfo) -> None:  # noqa: C901
+    import re as _re
+    from sa import structmodel as sm
+    from sa.e6 import ClassVal, Interp, Raised, Unmodelled
+    M = sm.Model(P)
+    fv = P.func("vtlengine.Operators.Join.Join.validate")
+
+    def mk(ids_list: List[List[str]], extra: Dict[int, List[str]]) -> List[sm.MDS]:
+        return [M.ds(f"d{i + 1}", ids, [f"M{i + 1}", "X"] + extra.get(i, [])) for i, ids in enumerate(ids_list)]
+
+    def validate(cls: str, ops: List[sm.MDS], using: Optional[List[str]]) -> Tuple[str, object]:
+        ext = {"VirtualCounter._new_ds_name": lambda: "__VDS__", "Dataset": M.mk_dataset, "isinstance": sm._isinstance,
+               "copy": lambda x: sm.MComp(x.name, x.role, x.data_type, x.nullable) if isinstance(x, sm.MComp) else x,
+               "binary_implicit_promotion": lambda a, b: a}
+        it = Interp(P, externals=ext, max_steps=400000)
+        try:
+            r = it.call(fv, {"operands": ops, "using": list(using) if using else None}, bound_cls=ClassVal(f"vtlengine.Operators.Join.{cls}"))
+        except Raised as e:
+            return "raise", getattr(e.exc, "code", None)
+        return "ok", r
+    n_ok = 0
+    for label, ids_list, using, extra in JOIN_SHAPES:
+        for cls, op in JOIN_OPS:
+            key = f"join/{op}/{label}"
+            try:
+                v = validate(cls, mk(ids_list, extra), using)
+                if v[0] != "ok":
+                    rep.instance("R04.7", key, nontrivial=False, sample={"validator": v})
+                    continue
+                ops = mk(ids_list, extra)
+                r = sm.join_sql(M, op, [(d.name, d, None) for d in ops], list(using) if using else None)
+            except Unmodelled as e:
+                raise AnalysisError(f"R04.7 {key}: construct outside the evaluator's language: {e}")
+            n_ok += 1
+            if r[0] != "ok" or isinstance(r[1], str):
+                rep.add(transp.fnd("R04.7", key, vj, vj.node.lineno, f"{op} over {label}: semantic analysis accepts the join but visit_JoinOp raises {r[1]}"))
+                continue
+            b = r[1]
+            cols = []
+            for c in b.cols:
+                m = _re.search(r'AS "([^"]+)"\s*$', c)
+                cols.append(m.group(1) if m else c.split(".")[-1].strip('"'))
+            want = sorted(v[1].components)  # type: ignore[union-attr]
+            if using:
+                rep.instance("R04.6", key, sample={"using": using, "on": [j["on"] for j in b.joins]})
+            rep.instance("R04.7", key, sample={"components": want, "select": cols, "joins": [(j["alias"], j["type"], j["on"]) for j in b.joins]})
+            if sorted(cols) != want:
+                rep.add(transp.fnd("R04.7", key + "/select", vj, vj.node.lineno,
+                                   f"{op} over operands with identifiers {ids_list}" + (f" using {using}" if using else "") + f": semantic analysis gives the components {want} "
+                                   f"but the generated SELECT delivers {sorted(cols)}"))
+            if b.alias != ops[0].name or len(b.joins) != len(ops) - 1:
+                rep.add(transp.fnd("R04.7", key + "/from", vj, vj.node.lineno, f"{op} over {label}: FROM is `{b.table} {b.alias}` with {len(b.joins)} joined operands; expected the first operand and {len(ops) - 1} joins, in order"))
+                continue
+            for k, j in enumerate(b.joins, start=1):
+                d = ops[k]
+                if j["alias"] != d.name:
+                    rep.add(transp.fnd("R04.7", key + f"/order/{k}", vj, vj.node.lineno, f"{op} over {label}: operand {k + 1} is joined as `{j['alias']}`, expected `{d.name}`"))
+                    continue
+                if op == "cross_join":
+                    if j["type"] != "CROSS":
+                        rep.add(transp.fnd("R04.7", key + f"/type/{k}", vj, vj.node.lineno, f"cross_join: operand {d.name} is joined with `{j['type']}` ON `{j['on']}`"))
+                    continue
+                if j["type"] != op:
+                    rep.add(transp.fnd("R04.7", key + f"/type/{k}", vj, vj.node.lineno, f"{op}: operand {d.name} is joined with join type `{j['type']}`"))
+                earlier = ops[:k]
+                if using:
+                    want_keys = sorted(x for x in using if x in d.components)
+                else:
+                    before = set().union(*(set(e_.get_identifiers_names()) for e_ in earlier))
+                    want_keys = sorted(set(d.get_identifiers_names()) & before)
+                parts = [p_.strip() for p_ in _re.split(r"\s+AND\s+", j["on"] or "")] if j["on"] and j["on"] != "1=1" else []
+                got_keys = []
+                for p_ in parts:
+                    m = _re.fullmatch(r'(.+?)\s*=\s*' + _re.escape(d.name) + r'\."([^"]+)"', p_)
+                    if not m:
+                        rep.add(transp.fnd("R04.7", key + f"/on-shape/{k}", vj, vj.node.lineno, f"{op} over {label}: ON part `{p_}` of operand {d.name} is not `<joined side> = {d.name}.<key>`"))
+                        continue
+                    kname = m.group(2)
+                    got_keys.append(kname)
+                    have = [e_.name for e_ in earlier if kname in e_.components]
+                    refs = _re.findall(r'(\w+)\."' + _re.escape(kname) + '"', m.group(1))
+                    coalesced = m.group(1).strip().upper().startswith("COALESCE(")
+                    rule = "R04.6" if using else "R04.7"
+                    if not refs or any(x not in have for x in refs):
+                        rep.add(transp.fnd(rule, key + f"/on-ref/{k}/{kname}", vj, vj.node.lineno,
+                                           f"{op} over {label}: `{p_}` references {refs or m.group(1)} for key {kname}; only {have} are joined before {d.name} and have that component"))
+                    elif op == "full_join" and len(have) > 1 and (not coalesced or sorted(refs) != sorted(have)):
+                        rep.add(transp.fnd("R04.3", key + f"/on-coalesce/{k}/{kname}", vj, vj.node.lineno,
+                                           f"full_join over {label}: `{p_}`: key {kname} of the joined side must be the COALESCE across {have} (each is NULL for datapoints that came only from the others)"))
+                    elif op == "left_join" and refs != [have[0]]:
+                        rep.add(transp.fnd("R04.7", key + f"/on-left-ref/{k}/{kname}", vj, vj.node.lineno,
+                                           f"left_join over {label}: `{p_}` takes key {kname} from {refs}; it must come from {have[0]} (the reference operand): operands joined later are NULL where unmatched, "
+                                           f"so datapoints of {d.name} would be lost"))
+                if sorted(got_keys) != want_keys:
+                    rule = "R04.6" if using else "R04.7"
+                    rep.add(transp.fnd(rule, key + f"/on-keys/{k}", vj, vj.node.lineno,
+                                       f"{op} over operands with identifiers {ids_list}" + (f" using {using}" if using else "") + f": operand {d.name} is joined ON {sorted(got_keys)}; "
+                                       f"the relational join needs exactly {want_keys} (" + ("the using keys it has" if using else "the identifiers it shares with the operands joined before it") + ")"))
+    rep.floor("R04.7 accepted join instances", n_ok, 25)
